@@ -38,6 +38,12 @@ impl Acc {
     pub fn add(&mut self, k: &str, n: u64) {
         *self.counters.entry(k.to_string()).or_insert(0) += n;
     }
+    pub fn max(&mut self, k: &str, n: u64) {
+        let e = self.counters.entry(format!("max:{}", k)).or_insert(0);
+        if n > *e {
+            *e = n;
+        }
+    }
     pub fn violate(&mut self, v: Violation) {
         // keep the first of each signature per accumulator
         if !self.violations.iter().any(|x| x.sig == v.sig) {
@@ -54,7 +60,14 @@ impl Acc {
         self.distinct.extend(o.distinct);
         self.nontrivial.extend(o.nontrivial);
         for (k, v) in o.counters {
-            *self.counters.entry(k).or_insert(0) += v;
+            if k.starts_with("max:") {
+                let e = self.counters.entry(k).or_insert(0);
+                if v > *e {
+                    *e = v;
+                }
+            } else {
+                *self.counters.entry(k).or_insert(0) += v;
+            }
         }
         for v in o.violations {
             match self.violations.iter_mut().find(|x| x.sig == v.sig) {
